@@ -236,14 +236,37 @@ func (e *explainer) explain(goal ast.Atom, depth int) []*ProofNode {
 		}
 		rulePremises := rule.Premises
 		uf := unionfind.New()
-		headUF, err := unionfind.UnifyTermsExtend(rule.Head.Args, baseTermsFrom(goal), uf)
+		// A function expression in the head cannot be unified with the goal;
+		// it is compared with the goal's argument once the body is solved.
+		var headArgs, goalArgs []ast.BaseTerm
+		computed := false
+		for i, arg := range rule.Head.Args {
+			if _, ok := arg.(ast.ApplyFn); ok {
+				computed = true
+				continue
+			}
+			headArgs = append(headArgs, arg)
+			goalArgs = append(goalArgs, goal.Args[i])
+		}
+		headUF, err := unionfind.UnifyTermsExtend(headArgs, goalArgs, uf)
 		if err != nil {
 			continue
 		}
 		remaining := e.opts.MaxProofs - len(proofs)
+		if computed {
+			// Solutions that produce a different head are dropped below,
+			// so the search cannot stop after the first few.
+			remaining = noCut
+		}
 		for _, sol := range e.solveBody(rulePremises, headUF, depth, remaining) {
 			if len(proofs) >= e.opts.MaxProofs {
 				break
+			}
+			if computed {
+				head, err := functional.EvalAtom(rule.Head, sol.subst)
+				if err != nil || !head.Equals(goal) {
+					continue
+				}
 			}
 			proof, ok := e.buildProof(&e.program.Rules[ruleIdx], ruleIdx, rule, goal, sol, depth)
 			if !ok {
